@@ -732,7 +732,8 @@ func (p *Parser) parseIndexExpression(left ast.Node) ast.Node {
 		return exp
 	}
 	// The open ended n: is the index itself (a[n:]), not an operand inside it (a[b=1:], a[b||1:]).
-	if root, ok := exp.Index.(*ast.InfixExpression); ok {
+	// (when the line simply ended there, a[b=1: in line mode, more input is what is needed, not an error)
+	if root, ok := exp.Index.(*ast.InfixExpression); ok && !p.continuationNeeded {
 		for in := root.Right; in != nil; {
 			inner, isInfix := in.(*ast.InfixExpression)
 			if !isInfix {
